@@ -132,10 +132,14 @@ asn_parse_int(u_char * data, int *datalength,
         return (NULL);
     }
     /* Type */
+    if (*datalength < 1) {
+        snmp_set_api_error(SNMPERR_ASN_DECODE);
+        return (NULL);
+    }
     *type = *bufp++;
 
     /* Extract length */
-    bufp = asn_parse_length(bufp, &asn_length);
+    bufp = asn_parse_length(bufp, *datalength - 1, &asn_length);
     if (bufp == NULL)
         return (NULL);
 
@@ -152,8 +156,8 @@ asn_parse_int(u_char * data, int *datalength,
     /* Remaining data */
     *datalength -= (int) asn_length + (bufp - data);
 
-    /* Is the int negative? */
-    if (*bufp & 0x80)
+    /* Is the int negative? (a zero-length integer has no octet to look at) */
+    if (asn_length > 0 && (*bufp & 0x80))
         value = -1;     /* integer is negative */
 
     /* Extract the bytes */
@@ -197,10 +201,14 @@ asn_parse_unsigned_int(u_char * data, int *datalength,
         return (NULL);
     }
     /* Type */
+    if (*datalength < 1) {
+        snmp_set_api_error(SNMPERR_ASN_DECODE);
+        return (NULL);
+    }
     *type = *bufp++;
 
     /* Extract length */
-    bufp = asn_parse_length(bufp, &asn_length);
+    bufp = asn_parse_length(bufp, *datalength - 1, &asn_length);
     if (bufp == NULL)
         return (NULL);
 
@@ -218,8 +226,8 @@ asn_parse_unsigned_int(u_char * data, int *datalength,
     /* Remaining data */
     *datalength -= (int) asn_length + (bufp - data);
 
-    /* Is the int negative? */
-    if (*bufp & 0x80)
+    /* Is the int negative? (a zero-length integer has no octet to look at) */
+    if (asn_length > 0 && (*bufp & 0x80))
         value = -1;     /* integer is negative */
 
     /* Extract the bytes */
@@ -400,8 +408,12 @@ asn_parse_string(u_char * data, int *datalength,
     u_char *bufp = data;
     u_int asn_length;
 
+    if (*datalength < 1) {
+        snmp_set_api_error(SNMPERR_ASN_DECODE);
+        return (NULL);
+    }
     *type = *bufp++;
-    bufp = asn_parse_length(bufp, &asn_length);
+    bufp = asn_parse_length(bufp, *datalength - 1, &asn_length);
     if (bufp == NULL)
         return (NULL);
 
@@ -476,13 +488,17 @@ asn_parse_header(u_char * data, int *datalength, u_char * type)
     int header_len;
     u_int asn_length;
 
+    if (*datalength < 1) {
+        snmp_set_api_error(SNMPERR_ASN_DECODE);
+        return (NULL);
+    }
     /* this only works on data types < 30, i.e. no extension octets */
     if (IS_EXTENSION_ID(*bufp)) {
         snmp_set_api_error(SNMPERR_ASN_DECODE);
         return (NULL);
     }
     *type = *bufp;
-    bufp = asn_parse_length(bufp + 1, &asn_length);
+    bufp = asn_parse_length(bufp + 1, *datalength - 1, &asn_length);
     if (bufp == NULL)
         return (NULL);
 
@@ -529,6 +545,8 @@ asn_build_header_with_truth(u_char * data, int *datalength,
 
 /*
  * asn_parse_length - interprets the length of the current object.
+ *  datalength is the number of valid bytes at data; nothing beyond them
+ *  is looked at.
  *  On exit, length contains the value of this length field.
  *
  *  Returns a pointer to the first byte after this length
@@ -536,11 +554,18 @@ asn_build_header_with_truth(u_char * data, int *datalength,
  *  Returns NULL on any error.
  */
 u_char *
-asn_parse_length(u_char * data, u_int * length)
-/*    u_char  *data;   IN - pointer to start of length field */
-/*    u_int  *length; OUT - value of length field */
+asn_parse_length(u_char * data, int datalength, u_int * length)
+/*    u_char  *data;       IN - pointer to start of length field */
+/*    int      datalength; IN - # of valid bytes at data */
+/*    u_int   *length;    OUT - value of length field */
 {
-    u_char lengthbyte = *data;
+    u_char lengthbyte;
+
+    if (datalength < 1) {
+        snmp_set_api_error(SNMPERR_ASN_DECODE);
+        return (NULL);
+    }
+    lengthbyte = *data;
 
     if (lengthbyte & ASN_LONG_LEN) {
         lengthbyte &= ~ASN_LONG_LEN;    /* turn MSb off */
@@ -550,6 +575,10 @@ asn_parse_length(u_char * data, u_int * length)
             return (NULL);
         }
         if (lengthbyte > sizeof(int)) {
+            snmp_set_api_error(SNMPERR_ASN_DECODE);
+            return (NULL);
+        }
+        if (datalength < 1 + (int) lengthbyte) {
             snmp_set_api_error(SNMPERR_ASN_DECODE);
             return (NULL);
         }
@@ -655,8 +684,12 @@ asn_parse_objid(u_char * data, int *datalength,
     int length;
     u_int asn_length;
 
+    if (*datalength < 1) {
+        snmp_set_api_error(SNMPERR_ASN_DECODE);
+        return (NULL);
+    }
     *type = *bufp++;
-    bufp = asn_parse_length(bufp, &asn_length);
+    bufp = asn_parse_length(bufp, *datalength - 1, &asn_length);
     if (bufp == NULL)
         return (NULL);
 
